@@ -60,7 +60,7 @@ def check_selfclose(ctx, prog):
             continue
         g = q.Guarded(f)
         for site in sites:
-            conds = [(q.expand(f, c, bools_only=True), pol) for c, pol, kind in g.of(site) if isinstance(c, dict) and kind in ('if', 'cond', 'and', 'or', 'after')]
+            conds = [(q.expand(f, c), pol) for c, pol, kind in g.of(site) if isinstance(c, dict) and kind in ('if', 'cond', 'and', 'or', 'after')]
             atoms = {}
 
             def childless(e):
